@@ -1,13 +1,14 @@
 #!/bin/bash
-# developer tool: run each kept seed against the quick check of its own property (and extra ones given as SEED:CHECK pairs)
+# developer tool: re-verify every seed (rounds 1 and 2) on the current /repo HEAD and run it against the quick check of its own
+# property (plus extra checks listed in seedextra.txt as SEED:CHECK).  Output: /tmp/seedmatrix.out
 out=/tmp/seedmatrix.out; : > $out
-for d in /tmp/seedkeep/*; do
+for d in /tmp/seedkeep/* /tmp/seedkeep2/*; do
   n=$(basename $d); p=${n%-*}
-  [ -f $d/verify.json ] || continue
-  if ! grep -q '"demo_exit_clean":0,"demo_exit_patched":1' $d/verify.json; then echo "$n SKIP(not valid on current tree)" >> $out; continue; fi
+  [ -f $d/patch.rebased.diff ] || continue
+  v=$(/verif/seedverify.sh $d | head -1)
+  if ! grep -q '"demo_exit_clean":0,"demo_exit_patched":1' $d/verify.json 2>/dev/null; then echo "$n INVALID-ON-HEAD ($v)" >> $out; continue; fi
   for c in $p $(grep "^$n:" /verif/seedextra.txt 2>/dev/null | cut -d: -f2); do
     r=$(/verif/seedtest.sh $d $c 2>&1 | tail -1)
-    v=$(grep -c . /dev/null)
     echo "$n $c $r" >> $out
   done
 done
